@@ -16,23 +16,42 @@ type Locker interface {
 	Unlock()
 }
 
-// Mutex stands in for sync.Mutex. The zero value is an unlocked mutex.
-type Mutex struct{ _ [1]byte }
+// fresh marks first use of the object at p whose generation byte is g: the
+// simulator keys its state by address, and a zero byte at an address it
+// already knows means a new object now lives there (a per-call local, say).
+func fresh(p unsafe.Pointer, g *uint8) {
+	if *g == 0 {
+		simrt.Forget(p)
+		*g = 1
+	}
+}
 
-func (m *Mutex) Lock()         { simrt.Lock(unsafe.Pointer(m), false) }
-func (m *Mutex) Unlock()       { simrt.Unlock(unsafe.Pointer(m)) }
-func (m *Mutex) TryLock() bool { return simrt.TryLock(unsafe.Pointer(m)) }
+// Mutex stands in for sync.Mutex. The zero value is an unlocked mutex.
+type Mutex struct{ gen uint8 }
+
+func (m *Mutex) Lock()   { fresh(unsafe.Pointer(m), &m.gen); simrt.Lock(unsafe.Pointer(m), false) }
+func (m *Mutex) Unlock() { simrt.Unlock(unsafe.Pointer(m)) }
+func (m *Mutex) TryLock() bool {
+	fresh(unsafe.Pointer(m), &m.gen)
+	return simrt.TryLock(unsafe.Pointer(m))
+}
 
 // RWMutex stands in for sync.RWMutex, including writer preference: once a
 // writer has called Lock and is waiting, new readers block.
-type RWMutex struct{ _ [1]byte }
+type RWMutex struct{ gen uint8 }
 
-func (m *RWMutex) Lock()          { simrt.Lock(unsafe.Pointer(m), true) }
-func (m *RWMutex) Unlock()        { simrt.Unlock(unsafe.Pointer(m)) }
-func (m *RWMutex) RLock()         { simrt.RLock(unsafe.Pointer(m)) }
-func (m *RWMutex) RUnlock()       { simrt.RUnlock(unsafe.Pointer(m)) }
-func (m *RWMutex) TryLock() bool  { return simrt.TryLock(unsafe.Pointer(m)) }
-func (m *RWMutex) TryRLock() bool { return simrt.TryRLock(unsafe.Pointer(m)) }
+func (m *RWMutex) Lock()    { fresh(unsafe.Pointer(m), &m.gen); simrt.Lock(unsafe.Pointer(m), true) }
+func (m *RWMutex) Unlock()  { simrt.Unlock(unsafe.Pointer(m)) }
+func (m *RWMutex) RLock()   { fresh(unsafe.Pointer(m), &m.gen); simrt.RLock(unsafe.Pointer(m)) }
+func (m *RWMutex) RUnlock() { simrt.RUnlock(unsafe.Pointer(m)) }
+func (m *RWMutex) TryLock() bool {
+	fresh(unsafe.Pointer(m), &m.gen)
+	return simrt.TryLock(unsafe.Pointer(m))
+}
+func (m *RWMutex) TryRLock() bool {
+	fresh(unsafe.Pointer(m), &m.gen)
+	return simrt.TryRLock(unsafe.Pointer(m))
+}
 
 // RLocker returns a Locker whose Lock/Unlock are RLock/RUnlock.
 func (m *RWMutex) RLocker() Locker { return (*rlocker)(m) }
@@ -47,11 +66,14 @@ func (r *rlocker) Unlock() { (*RWMutex)(r).RUnlock() }
 // the real one does.
 type Once struct {
 	done bool
-	_    [1]byte
+	gen  uint8
 }
 
 // Do calls f if and only if Do is being called for the first time.
 func (o *Once) Do(f func()) {
+	if !o.done {
+		fresh(unsafe.Pointer(o), &o.gen)
+	}
 	if o.done {
 		// the fast path is an atomic load of the done flag: it acquires what the
 		// first caller published and publishes nothing itself
@@ -69,9 +91,9 @@ func (o *Once) Do(f func()) {
 }
 
 // WaitGroup stands in for sync.WaitGroup.
-type WaitGroup struct{ _ [1]byte }
+type WaitGroup struct{ gen uint8 }
 
-func (w *WaitGroup) Add(n int) { simrt.WgAdd(unsafe.Pointer(w), n) }
+func (w *WaitGroup) Add(n int) { fresh(unsafe.Pointer(w), &w.gen); simrt.WgAdd(unsafe.Pointer(w), n) }
 func (w *WaitGroup) Done()     { simrt.WgAdd(unsafe.Pointer(w), -1) }
 func (w *WaitGroup) Wait()     { simrt.WgWait(unsafe.Pointer(w)) }
 
